@@ -102,9 +102,6 @@ impl World {
     fn px_of(&self, n: &str) -> &Proxy {
         if n == "A" { &self.ab } else { &self.ba }
     }
-    fn px(&self, name: &str) -> &Proxy {
-        if name == "ab" { &self.ab } else { &self.ba }
-    }
     fn all_dead(&self) -> bool {
         self.ab.all_dead() && self.ba.all_dead()
     }
@@ -125,8 +122,6 @@ impl World {
         let to = Self::other(from);
         let to_alive = self.node(to).alive;
         let px = self.px_of(from);
-        let streams_before: Vec<usize> = Vec::new();
-        let _ = streams_before;
         let has = |l: &[Value], e: &str, n: &str| l.iter().skip(mark).any(|v| is(v, e) && v["n"] == n);
         let pxname = px.name.clone();
         let done = |l: &[Value]| {
@@ -178,11 +173,19 @@ impl World {
                 self.log.push(json!({"e": "dial_begin", "n": from}));
                 let ret = self.node(from).dial_address(addr).await;
                 self.log.push(json!({"e": "dial_ret", "n": from, "ret": ret.clone().err().unwrap_or("ok".into())}));
-                let est = self.wait_connect(from, mark, cut_at.is_some()).await;
+                if let Some(victim) = st["kill_on_est"].as_str() {
+                    // crash one side the moment it reports the connection (the other side sees a connection
+                    // that ends right after - or while - it is being accepted)
+                    let v = victim.to_string();
+                    self.log.wait(self.deadline, |l| l.iter().skip(mark).any(|e| is(e, "app_est") && e["n"] == v.as_str())).await;
+                    self.log.push(json!({"e": "kill", "n": victim}));
+                    self.node_mut(victim).kill();
+                }
+                let est = self.wait_connect(from, mark, cut_at.is_some() || st["kill_on_est"].is_string()).await;
                 self.log.push(json!({"e": "conn_result", "from": from, "est_from": est.0, "est_to": est.1}));
                 if st["expect"].as_bool().unwrap_or(false) {
                     self.newconn_lines(mark, est, from, cut_at.is_some());
-                } else if cut_at.is_none() && !(est.0 && est.1) && self.node(to).alive {
+                } else if cut_at.is_none() && !st["kill_on_est"].is_string() && !(est.0 && est.1) && self.node(to).alive {
                     return Err(format!("connect {from}->{to} did not establish on both sides: {est:?}"));
                 }
             }
@@ -424,6 +427,9 @@ async fn run_scenario(sc: &Value) -> (Vec<Value>, f64, Option<String>) {
 fn main() {
     let args = Args::parse();
     netcommon::install_panic_recorder();
+    if args.get("trace-log").is_some() {
+        netcommon::tracelog::install();
+    }
     let scs = read_jsonl(&args.str("scenarios", "scenarios.jsonl"));
     let out = args.str("out", "trace.ndjson");
     let par = args.u64("par", 24) as usize;
@@ -495,6 +501,9 @@ fn main() {
         }
     }
     write_lines(&out, &lines);
+    for l in netcommon::tracelog::LINES.lock().unwrap().iter() {
+        println!("LITEP2P-LOG {l}");
+    }
     let panics = netcommon::PANICS.lock().unwrap().clone();
     println!(
         "SUMMARY {}",
